@@ -42,9 +42,9 @@ const (
 	OSlt
 	OSle
 	// width change
-	OZext  // val = new width
-	OSext  // val = new width
-	OExtr  // val = hi<<8|lo
+	OZext // val = new width
+	OSext // val = new width
+	OExtr // val = hi<<8|lo
 	OConcat
 )
 
@@ -72,12 +72,12 @@ type Term struct {
 // Ctx owns the hash-cons table.
 type Ctx struct {
 	rangeMemo map[*Term][3]int64
-	varsMemo map[*Term][]int
-	tab   map[string]*Term
-	n     int
-	Vars  []*Term
-	True  *Term
-	False *Term
+	varsMemo  map[*Term][]int
+	tab       map[string]*Term
+	n         int
+	Vars      []*Term
+	True      *Term
+	False     *Term
 }
 
 func NewCtx() *Ctx {
